@@ -1,0 +1,35 @@
+//go:build verif
+
+// Machine-checked contracts for package telemetry (comment-only; see /verif/DESIGN.md).
+
+package telemetry
+
+// A telemetry request is made only by sendTelemetry, which runs only under an enabled
+// configuration: sendTelemetry <- run <- Start (spawned only if Enabled).
+//@ func (*Collector).sendTelemetry serves C19
+//@   requires c != nil && c.config.Enabled
+//@   call Do requires c.config.Enabled
+
+//@ func (*Collector).run serves C19
+//@   requires c != nil && c.config.Enabled
+//@   loop 1 invariant c.config.Enabled
+
+//@ func (*Collector).Start serves C19
+//@   requires c != nil
+
+//@ callers (*Collector).sendTelemetry serves C19: (*Collector).run
+//@ callers (*Collector).run serves C19: (*Collector).Start
+//@ callers lib:net/http serves C19: (*Collector).sendTelemetry
+//@ writers Config.Enabled serves C19: DefaultConfig, server.(*Server).Start
+
+// The collector keeps the configuration it was given.
+//@ func New serves C19
+//@   returns (c, err)
+//@   ensures err == nil && cfg != nil ==> c != nil && c.config == cfg && c.version == version
+
+// The report carries exactly the documented fields, and the identifying ones are the
+// collector's random instance id and the version string.
+//@ jsonfields TelemetryPayload serves C19: instance_id, timestamp, liftbridge_version, os.name, os.version, os.architecture, os.platform, cpu.physical_cores, cpu.logical_cores, cpu.frequency_mhz, memory.total_gb
+//@ func (*Collector).collectPayload serves C19
+//@   requires c != nil
+//@   ensures result != nil && result.InstanceID == c.instanceID && result.LiftbridgeVersion == c.version
